@@ -442,3 +442,105 @@ Qed.
 (* the empty cache *)
 Corollary rc_model_race_free_empty cfg progs sched : ~ hb_race (rc_trace cfg c_init progs sched).
 Proof. apply rc_model_race_free. reflexivity. Qed.
+
+(* ------------------------------------------------------------------ labelling vs yield sites
+   The C04 stream "call-steps" compares at EVERY step of every executed schedule the yield site
+   the real goroutine is parked at with [cs_site] of the model's pc (cachex/verif_on.go: the
+   yield sits directly in front of the access the site names).  The labelling agrees with that
+   classification: the first event of a step from a site is the operation the site names.
+     1 BeforeLock: Lock        2 AfterLock: a plain access (the map, or the new private future)
+     3 AfterUnlock / 0: nothing     4 LoadUpdateTime: atomic load of updateTime
+     5 ReadErr: plain read of err   6 LoadPredecessor: atomic load of predecessor
+     7 StoreUpdateTime: the store   8 StorePredecessor: the store, then wg.Done, no acquire
+     9 SendJob: the send            10 FutureWait: wg.Wait returns, then value and err are read
+     100 (harness: loader returned): setValue's plain writes only *)
+Lemma rc_sites cfg m pc :
+  match cs_site pc with
+  | 1%Z => rc_label cfg m pc = [RAcq rc_mu]
+  | 2%Z => exists e rest, rc_label cfg m pc = e :: rest /\ ~ rm_sync e
+  | 0%Z | 3%Z => rc_label cfg m pc = []
+  | 4%Z => exists f rest, rc_label cfg m pc = RAcq (rc_ut f) :: rest
+  | 5%Z => exists f rest, rc_label cfg m pc = RRead (rc_err f) :: rest
+  | 6%Z => exists f rest, rc_label cfg m pc = RAcq (rc_pr f) :: rest
+  | 7%Z => exists f, rc_label cfg m pc = [RRel (rc_ut f)]
+  | 8%Z => exists f rest, rc_label cfg m pc = RRel (rc_pr f) :: RRel (rc_wg f) :: rest
+                          /\ Forall (fun e => forall o, ~ hb_is_acq e o) rest
+  | 9%Z => exists f, rc_label cfg m pc = [RRel (rc_ch f)]
+  | 10%Z => exists f, rc_label cfg m pc = [RAcq (rc_wg f); RRead (rc_val f); RRead (rc_err f)]
+  | 100%Z => Forall (fun e => ~ rm_sync e) (rc_label cfg m pc)
+  | _ => True
+  end.
+Proof.
+  destruct pc; cbn [cs_site]; unfold rc_label; cbn [rc_label_gen]; try reflexivity;
+    try (eexists; reflexivity); try (eexists _, _; reflexivity).
+  - eexists _, _. split; [reflexivity|intros []].
+  - eexists _, _. split; [reflexivity|intros []].
+  - unfold rc_new. cbn [app]. eexists _, _. split; [reflexivity|intros []].
+  - eexists _, _. split; [reflexivity|]. repeat constructor; intros o H; exact H.
+  - unfold rc_setv. repeat constructor; intros [].
+  - eexists _, _. split; [reflexivity|]. constructor.
+  - unfold rc_sweep_next. eexists _, _. split; [reflexivity|intros []].
+Qed.
+
+(* the worker's channel receive happens in the first step of its call (from site 0) *)
+Lemma rc_sites_start m op :
+  rc_label_start m op = [] \/ exists f, rc_label_start m op = [RAcq (rc_ch f)].
+Proof.
+  destruct op; cbn; auto. destruct (c_queue m) as [|f q]; [auto|right; eauto].
+Qed.
+
+(* ------------------------------------------------------------------ the analysis discriminates *)
+Definition rc_ex_cfg : c_cfg := {| c_normE := 3600%Z; c_errE := 1200%Z |}.
+
+(* the status check of the code before fix D3 (future.err read although the loaded updateTime is
+   zero) races with the worker's setValue in the labelled model: a Load creates the entry and
+   sends the job, the worker receives it, a second Load checks the status, the worker writes *)
+Lemma rc_unguarded_status_refuted :
+  hb_race (rc_trace_gen true rc_ex_cfg c_init [[CsLoad 0%Z]; [CsFinish 5%Z 0%Z]; [CsLoad 0%Z]]
+             (map CsRun [0;0;0;0;0; 1; 2;2;2;2; 1])).
+Proof. apply (hbp_sound 4). vm_compute. reflexivity. Qed.
+
+(* the same schedule on the code as it is: no race *)
+Lemma rc_unguarded_schedule_ok :
+  ~ hb_race (rc_trace rc_ex_cfg c_init [[CsLoad 0%Z]; [CsFinish 5%Z 0%Z]; [CsLoad 0%Z]]
+               (map CsRun [0;0;0;0;0; 1; 2;2;2;2; 1])).
+Proof. apply rc_model_race_free. reflexivity. Qed.
+
+(* the job channel is what orders the worker's setValue after the allocation of the future:
+   without the receive's acquire the run races *)
+Lemma rc_channel_needed :
+  let tr := rc_trace rc_ex_cfg c_init [[CsLoad 0%Z]; [CsFinish 5%Z 0%Z]] (map CsRun [0;0;0;0;0; 1;1]) in
+  nth_error tr 13 = Some (1, RAcq (rc_ch 0)) /\ ~ hb_race tr /\ hb_race (firstn 13 tr ++ skipn 14 tr).
+Proof.
+  cbv zeta. split; [vm_compute; reflexivity|]. split; [apply rc_model_race_free; reflexivity|].
+  apply (hbp_sound 3). vm_compute. reflexivity.
+Qed.
+
+(* without the release of setValue's store of updateTime, a status check that saw the new stamp
+   races with the write of err *)
+Lemma rc_store_release_needed :
+  let tr := rc_trace rc_ex_cfg c_init [[CsLoad 0%Z]; [CsFinish 5%Z 0%Z]; [CsGet2 0%Z]]
+              (map CsRun [0;0;0;0;0; 1;1;1; 2;2;2;2;2]) in
+  nth_error tr 17 = Some (1, RRel (rc_ut 0)) /\ ~ hb_race tr /\ hb_race (firstn 17 tr ++ skipn 18 tr).
+Proof.
+  cbv zeta. split; [vm_compute; reflexivity|]. split; [apply rc_model_race_free; reflexivity|].
+  apply (hbp_sound 4). vm_compute. reflexivity.
+Qed.
+
+(* the set-ups of the C04 stream (Cache.v events from the empty cache, back-dating) are well-formed
+   initial memories: absent, loading, loading-stale-pred, fresh, expired, rotted, err-fresh, err-expired *)
+Definition rc_ex_inits : list c_state :=
+  let ld m := fst (c_step rc_ex_cfg m (CLoad 0%Z)) in
+  let fin v e m := fst (c_step rc_ex_cfg (fst (c_step rc_ex_cfg m (CStart 0%Z))) (CFinish 0%Z 0 v e)) in
+  [ c_init; ld c_init;
+    ld (cs_backdate (fin 5%Z 0%Z (ld c_init)) 0 5400%Z);
+    cs_backdate (fin 5%Z 0%Z (ld c_init)) 0 60%Z;
+    cs_backdate (fin 5%Z 0%Z (ld c_init)) 0 5400%Z;
+    cs_backdate (fin 5%Z 0%Z (ld c_init)) 0 10800%Z;
+    cs_backdate (fin 0%Z 3%Z (ld c_init)) 0 60%Z;
+    cs_backdate (fin 0%Z 3%Z (ld c_init)) 0 1800%Z ].
+Lemma rc_ex_inits_ok : forallb rc_mem_ok rc_ex_inits = true.
+Proof. vm_compute. reflexivity. Qed.
+
+Lemma rc_rows_ok : rc_rows_in_table = true.
+Proof. vm_compute. reflexivity. Qed.
